@@ -143,6 +143,43 @@ def check_cm(ctx, label, sysm, L, N, n_dirs, n_sec, redegree=False):
         bound = max(e_en[0] * (r / radii[0]) ** (N + 1), 1e-12) * 20 + 1e-10
         ctx.stat("section_energy_err/bound", abs(e_syn - h0) / bound)
         ctx.check(abs(e_syn - h0) <= bound, "C:synodic state of a section point lies on the prescribed energy level (within truncation)", {**wit, "e_syn": e_syn, "bound": bound, "r": r})
+    # section points that are admissible BY CONSTRUCTION: a 4-D point on the section whose remaining (solved-for) coordinate is small and
+    # positive defines the energy level; lifting its plane coordinates at that level must succeed (a root exists) — near the rim of the
+    # admissible region of the section plane the solved coordinate is far below the solver's first trial value
+    SOLVED = {"q2": 1, "p2": 0, "q3": 3, "p3": 2}
+    for j in range(max(4, n_sec // 2)):
+        sec = ["q2", "p2", "q3", "p3"][j % 4]
+        si, plane = SECTIONS[sec]
+        small = float([2e-4, 1e-4, 5e-5, 7e-4, 3e-3, 2e-2][int(rng.integers(6))])
+        p2 = rng.normal(size=2)
+        p2 *= rng.uniform(0.03, 0.2) / np.linalg.norm(p2)
+        p4 = np.zeros(4)
+        p4[list(plane)] = p2
+        p4[SOLVED[sec]] = small
+        h0 = H_cm(cm, N, p4)
+        p4z = p4.copy()
+        p4z[SOLVED[sec]] = 0.0
+        hz = H_cm(cm, N, p4z)
+        # the library's notion of an admissible plane point is H(plane point, solved coordinate = 0) <= energy; odd terms of the
+        # centre-manifold Hamiltonian can make H dip for a small positive coordinate, and such points are legitimately declined
+        if not (h0 > 0) or not (h0 - hz > 1e-13 * (1 + abs(h0))):
+            ctx.skip("constructed section point not inside the library's admissible region (H at zero solved coordinate above the level)")
+            continue
+        ctx.case(f"section-constructed:{sec}", [label, N, sec, small, p2.round(8).tolist()], nontrivial=True)
+        wit = {"cm": label, "N": N, "section": sec, "energy": h0, "plane_point": p2, "solved_coordinate_of_the_constructing_point": small}
+        try:
+            syn = np.asarray(cm.to_synodic(p2, h0, sec), dtype=float)
+        except Exception as exc:
+            ctx.check(False, "C:a section point that is admissible by construction is lifted to its energy level",
+                      {**wit, "error": f"{type(exc).__name__}: {exc}"[:300]})
+            continue
+        back = np.asarray(cm.to_cm(syn), dtype=float)
+        r = float(np.linalg.norm(p4))
+        tolb = max(e_rt[0] * (r / radii[0]) ** (N + 1), 1e-12) * 20 + 1e-9
+        hb = H_cm(cm, N, back)
+        ctx.check(abs(back[si]) <= tolb and np.abs(back[list(plane)] - p2).max() <= tolb and abs(hb - h0) <= 1e-7 * (1 + abs(h0)) + 50 * tolb,
+                  "C:a section point that is admissible by construction is lifted to its energy level",
+                  {**wit, "back": back, "H_back": hb, "tol": tolb})
 
 
 def run(ctx):
@@ -165,3 +202,4 @@ def run(ctx):
     ctx.require("A:conclusive rate", 1 if one_ else 2)
     ctx.require("B:conclusive rate", 1 if one_ else 2)
     ctx.require("C:synodic state of a section point lies on the prescribed energy level (within truncation)", 3 if one_ else 10)
+    ctx.require("C:a section point that is admissible by construction is lifted to its energy level", 2 if one_ else 6)
